@@ -1617,6 +1617,32 @@ class Explorer:
                 return ret(C((x + y) % (hi + 1), ty))
             if opn in ("min", "max"):
                 return ret(C(min(x, y) if opn == "min" else max(x, y), ty))
+        # ---- checked_sub / checked_add on symbolic unsigned values: Some(a - b) exactly when it does not wrap
+        if mnum and mnum.group(2) in ("checked_sub", "checked_add") and len(args) == 2 and (args[0][0] == "sym" or args[1][0] == "sym"):
+            ty, opn = mnum.group(1), mnum.group(2)
+            OPT = "std::option::Option"
+            if opn == "checked_sub":
+                cond = self.binop(st, "Lt", args[0], args[1])          # a < b: would wrap
+                val = SYM(self.cap(("bin", "Sub", args[0], args[1])))
+                alts = []
+                for truth, res_ in ((False, AGG(OPT, "Some", (val,))), (True, AGG(OPT, "None"))):
+                    s2 = st.clone()
+                    r = self.eval_bool(s2, cond)
+                    if isinstance(r, bool):
+                        if r != truth:
+                            continue
+                    elif not self.assume_bool(s2, r, truth):
+                        continue
+                    k2 = self.clone_stack(stack)
+                    self.write_place(s2, k2[-1], dest, res_, site)
+                    if target is None:
+                        continue
+                    k2[-1].bb = target
+                    alts.append((s2, k2))
+                if not alts:
+                    self.finish_path(st, None, "diverge")
+                    return "stop"
+                return ("fork", alts)
         # ---- iteration over an array literal: concrete, element by element (finite, so no loop bound applies)
         if path.endswith("IntoIterator for [T; N]>::into_iter") and args and args[0][0] == "arr":
             return ret(("arriter", args[0][1], 0))
@@ -2168,7 +2194,7 @@ def struct_eq(a, b):
 
 def small_private_helper(callee):
     return callee.get("kind") in ("Fn", "AssocFn") and not callee.get("pub") and callee["path"].startswith("mqtt::packet::") \
-        and len(callee["blocks"]) <= 14 and not callee.get("impl_trait") and "Builder" not in callee.get("impl_self", "")
+        and len(callee["blocks"]) <= 30 and not callee.get("impl_trait") and "Builder" not in callee.get("impl_self", "")
 
 
 BUILDER_RE = re.compile(r"^mqtt::packet::.*Builder(<.*>)?$")
